@@ -471,6 +471,11 @@ func (b *Builder) Distract(maxInputs, maxConvs int) {
 	}
 	for i, n := 0, g.Int(0, maxConvs); i < n && len(b.Sc.Convs) < 8; i++ {
 		o := b.Opts
+		if g.Pct(12) {
+			// a converter without outputs (a validator returning only an
+			// error, or nothing): never useful, but a supplied converter
+			o.MinOut, o.MaxOut = 0, 0
+		}
 		b.AddConv(GenFunc(g, b.Pal, b.NewID(), o))
 	}
 }
